@@ -205,6 +205,13 @@ def check(ctx):
         ctx.check(ok, "C08.c", "register_despawn_reactor:tracker-not-replaced", c.loc(ins[0][0]) if ins else "%s:%d" % (c.file, c.line),
                   "DespawnTracker is inserted only on the contains::<DespawnTracker>() == false arm",
                   "an existing DespawnTracker can be replaced (its Drop would report a live entity as despawned)")
+        # the tracker's entity field by type (the private name may change)
+        try:
+            _dt_adt = prog.adt_by_name("DespawnTracker")
+            _efs = [f_["name"] for f_ in _dt_adt["variants"][0]["fields"] if f_["ty"].endswith("entity::Entity")]
+            pfield = _efs[0] if len(_efs) == 1 else "parent"
+        except (mir.AnchorLost, KeyError, IndexError):
+            pfield = "parent"
         ents = set()
         for b, t in ins:
             ents |= {tuple(o) for r in [x for x in entity_of(c, t["args"][0])] for o in r}
@@ -213,7 +220,17 @@ def check(ctx):
                 if o[0] == "agg":
                     ag = c.blocks[o[1]]["stmts"][o[2]]["rv"]["agg"]
             if ag:
-                ents |= {tuple(o) for o in origins(c, ag["ops"][ag["fields"].index("parent")])}
+                if pfield not in ag.get("fields", []):
+                    raise mir.AnchorLost("DespawnTracker aggregate without its entity field")
+                for o in origins(c, ag["ops"][ag["fields"].index(pfield)]):
+                    # `entity_mut.id()` is the entity that `entity_mut` was looked up with
+                    if o[0] == "call":
+                        t_ = c.blocks[o[1]]["term"]
+                        fr_ = op_fn(t_["func"])
+                        if fr_ and lib.tail(mir.fn_name(fr_), 2) in ("EntityWorldMut::id", "EntityRef::id", "EntityMut::id", "EntityCommands::id") and len(o) == 2:
+                            ents |= {tuple(o2) for r in entity_of(c, t_["args"][0]) for o2 in r}
+                            continue
+                    ents.add(tuple(o))
         for b, t in regc:
             ents |= {tuple(o) for o in origins(c, t["args"][1])}
         ctx.check(len(ents) == 1, "C08.c", "register_despawn_reactor:one-entity", "%s:%d" % (c.file, c.line),
@@ -229,7 +246,7 @@ def check(ctx):
         ctx.touch(dt)
         sends = [(b, t) for b, t, fr in dt.iter_calls() if fr and lib.tail(mir.fn_name(fr), 1) == "send"]
         cnt, _, _ = lib.event_counts(dt, [b for b, t in sends])
-        oks = cnt == {1} and all(all(o[0] == "arg" and o[1] == 1 and o[-1] == ".parent" for o in origins(dt, t["args"][1])) for b, t in sends)
+        oks = cnt == {1} and all(all(o[0] == "arg" and o[1] == 1 and o[-1] == "." + pfield for o in origins(dt, t["args"][1])) for b, t in sends)
         oks = oks and all(lib.tail(mir.fn_name(op_fn(dt.blocks[b]["term"]["func"])), 1) == "send" for b, t in sends)
         ctx.check(oks, "C08.c", "DespawnTracker::drop:sends-parent-once", "%s:%d" % (dt.file, dt.line), "Drop sends self.parent exactly once",
                   "Drop for DespawnTracker sends %s times / not self.parent" % sorted(cnt))
@@ -259,6 +276,22 @@ def check(ctx):
         snap = [lib.tail(n, 1) for b, t, n, ch in lib.field_method_calls(sdr, "ReactCache", rfield) if ch and lib.tail(n, 1) in ("collect", "count", "last", "fold")]
         ctx.check(rc in (["Receiver::try_recv"], ["Receiver::try_iter"]) and not snap, "C08.c", "schedule_despawn_reactions:reads-own-receiver",
                   "%s:%d" % (sdr.file, sdr.line), "", "schedule_despawn_reactions reads %s %s" % (rc, snap))
+        # ... and the read goes on until the channel is empty: no adapter on the receiver's iterator may end the iteration
+        # early (`map_while`, `take_while`, `take(n)`, a short-circuiting `try_for_each` / `find` / `any`), which would leave the
+        # notifications behind the first uninteresting one in the channel for some later tree
+        EARLY_STOP = ("map_while", "take_while", "take", "scan", "step_by", "nth", "find", "find_map", "position", "any", "all",
+                      "try_for_each", "try_fold", "next")
+        # (`next` driving a `for` loop is the loop itself; only an explicit single `next()` outside a loop header stops early)
+        loop_heads = set()
+        try:
+            import loops as _LP
+            loop_heads = {L_.driver for L_ in _LP.find_loops(sdr) if L_.driver is not None}
+        except Exception:
+            pass
+        stops = [lib.tail(n, 1) for b, t, n, ch in lib.field_method_calls(sdr, "ReactCache", rfield)
+                 if ch and lib.tail(n, 1) in EARLY_STOP and not (lib.tail(n, 1) == "next" and b in loop_heads)]
+        ctx.check(not stops, "C08.c", "schedule_despawn_reactions:drains-without-early-stop", "%s:%d" % (sdr.file, sdr.line),
+                  "no early-stopping adapter on the receiver's iterator", "the despawn channel is read through %s, which can stop before the channel is empty" % stops)
     except mir.AnchorLost as e:
         ctx.fail("C08.c", "anchor-lost:despawn channel", "", str(e))
     try:
